@@ -209,6 +209,21 @@ CLAIMS = {
         design="§7 C18",
         note=TB + "textwrap.fill outside the simple class (break_long_words, break_on_hyphens, tabs) is not modelled.",
     ),
+    "C13": dict(
+        technique="Lean 4 theorem over arbitrary call histories (emitters as IR -> Artefact x IR) + differential run of the post-call description; shared-vs-fresh artefact comparison on the real code",
+        text=(
+            "Kernel-checked: Shared.shared_eq_fresh - for ANY list of calls (any length, order, repetition), if no call "
+            "changes the description it is given then running them on one shared description gives every call exactly the "
+            "result it gives on a fresh copy (induction over the history); pure_histories; and the kernel-checked witness "
+            "old_class_then_function_differs for the behaviour before fix 79e7812 (emit.class_ moved the return entry into "
+            "the caller's params). The hypothesis 'the call leaves its argument unchanged' is exactly what the differential "
+            "run establishes for each real emitter (post-call IR = Shared.emitPure's). The predicate runs histories of up "
+            "to 4 emit calls on one shared description, and parse/emit histories sharing one function AST with a body, "
+            "against fresh copies, and checks that the tree given to a parser is not altered."
+        ),
+        design="§7 C13",
+        note=TB + "Artefacts are compared as text; the parsers' own input-preservation is checked by ast.dump, not modelled.",
+    ),
 }
 
 PENDING_REASON = "check not built yet in this round (work in progress; see DESIGN.md §10 build order) — not a claim that the technique cannot apply"
